@@ -40,7 +40,7 @@ template<size_t N> std::string runR(const std::vector<std::string>& w)
    std::string prop, intl;
    for (auto& o : vf::split(w[5], ','))
    {
-      const bool nonnull = o[0] == 'n';
+      const bool nonnull = o[0] != 'z';   // n: uint8_t*, p: uint16_t*, q: uint32_t*, r: double* (the length is in bytes)
       const size_t len = std::stoull(o.substr(1));
       // destination of exactly len bytes on the heap: ASan sees any overrun
       std::unique_ptr<uint8_t[]> dst(new uint8_t[len ? len : 1]);
@@ -48,7 +48,10 @@ template<size_t N> std::string runR(const std::vector<std::string>& w)
       if (!prop.empty()) { prop += ' '; intl += ' '; }
       try
       {
-         rb.get(nonnull ? dst.get() : static_cast<uint8_t*>(nullptr), len);
+         if (o[0] == 'p') rb.get(reinterpret_cast<uint16_t*>(dst.get()), len);
+         else if (o[0] == 'q') rb.get(reinterpret_cast<uint32_t*>(dst.get()), len);
+         else if (o[0] == 'r') rb.get(reinterpret_cast<double*>(dst.get()), len);
+         else rb.get(nonnull ? dst.get() : static_cast<uint8_t*>(nullptr), len);
          prop += "G:" + vf::hex(dst.get(), len);
          intl += "[";
          for (size_t i = 0; i < rb.reqs.size(); ++i)
